@@ -474,6 +474,9 @@ fn judge_relative<T: Num + num_traits::Float>(s: Interval<T>, r: Interval<T>, ca
             _ => vec![],
         }
     };
+    // (x-r)/r evaluated in floating point from representable x and r carries two roundings: the
+    // tolerance is relative to the bound itself (a bound of 1e-10 must be right to ~1e-25, not 1e-15)
+    let tol = |b: f64| slack_ulps * f64::EPSILON * b.abs() + f64::MIN_POSITIVE;
     let mres = M::of(&res);
     if !mres.well_formed() {
         l.violation(format!("{}|self={},ref={}|inverted-result", entry, ks, kr), "relative_to returns an inverted interval".to_string(), case(), detail(format!("{:?}", res), Value::Null));
@@ -486,11 +489,11 @@ fn judge_relative<T: Num + num_traits::Float>(s: Interval<T>, r: Interval<T>, ca
             l.eval();
             // enclosure with a few ulps of slack (floating evaluation of (x-r)/r)
             let lo_ok = match mres.lo.val() {
-                Some(b) => v >= b.f() - slack_ulps * f64::EPSILON * (1.0 + b.f().abs()),
+                Some(b) => v >= b.f() - tol(b.f()),
                 None => true,
             };
             let hi_ok = match mres.hi.val() {
-                Some(b) => v <= b.f() + slack_ulps * f64::EPSILON * (1.0 + b.f().abs()),
+                Some(b) => v <= b.f() + tol(b.f()),
                 None => true,
             };
             if !(lo_ok && hi_ok) {
@@ -506,7 +509,7 @@ fn judge_relative<T: Num + num_traits::Float>(s: Interval<T>, r: Interval<T>, ca
     for (side, b) in [("low", mres.lo.val()), ("high", mres.hi.val())] {
         if let Some(b) = b {
             let b = b.f();
-            if !vals.iter().any(|v| (v - b).abs() <= slack_ulps * f64::EPSILON * (1.0 + b.abs())) {
+            if !vals.iter().any(|v| (v - b).abs() <= tol(b)) {
                 l.violation(
                     format!("{}|self={},ref={}|{}-bound-not-attained", entry, ks, kr, side),
                     format!("relative_to: the {} bound is not attained at any pair of end points (self {}, reference {})", side, ks, kr),
@@ -519,6 +522,43 @@ fn judge_relative<T: Num + num_traits::Float>(s: Interval<T>, r: Interval<T>, ca
     let cls = format!("relative_to:{}x{}", ks, kr);
     if l.wants_sample(&cls) {
         l.sample(&cls, || detail(format!("{:?}", res), json!({"values_checked": vals.len()})));
+    }
+    // a relative change has no unit: scaling self and reference by the same power of two (no overflow,
+    // no underflow) must give the same interval bit for bit, however small or large the reference is
+    let exps: &[i32] = if T::TY == "f32" { &[-100, -24, -20, 60] } else { &[-900, -60, -52, -30, 40, 900] };
+    for &e in exps {
+        let f = T::of(2f64.powi(e));
+        let sc = |i: &Interval<T>| -> Interval<T> {
+            match i {
+                Interval::TwoSided(a, b) => Interval::TwoSided(*a * f, *b * f),
+                Interval::UpperOneSided(a) => Interval::UpperOneSided(*a * f),
+                Interval::LowerOneSided(b) => Interval::LowerOneSided(*b * f),
+            }
+        };
+        let (s2, r2) = (sc(&s), sc(&r));
+        // the scaled reference must stay strictly positive and finite
+        let fin = |i: &Interval<T>| M::of(i).lo.val().map(|v| v.f().is_finite() && v.f() > 0.0 || v.f() == 0.0).unwrap_or(true) && M::of(i).hi.val().map(|v| v.f().is_finite()).unwrap_or(true);
+        let r_pos = M::of(&r2).lo.val().map(|v| v.f() >= f64::MIN_POSITIVE * 1e10 && (T::TY != "f32" || v.f() >= 1e-30)).unwrap_or(false);
+        let exact = |a: &Interval<T>, b: &Interval<T>| -> bool {
+            // scaling was exact: scaling back reproduces the original
+            let g = T::of(2f64.powi(-e));
+            match (a, b) {
+                (Interval::TwoSided(x, y), Interval::TwoSided(p, q)) => *x * g == *p && *y * g == *q,
+                (Interval::UpperOneSided(x), Interval::UpperOneSided(p)) => *x * g == *p,
+                (Interval::LowerOneSided(x), Interval::LowerOneSided(p)) => *x * g == *p,
+                _ => false,
+            }
+        };
+        if !(fin(&s2) && fin(&r2) && r_pos && exact(&s2, &s) && exact(&r2, &r)) {
+            continue;
+        }
+        l.eval();
+        l.count("relative_to scale invariance judged");
+        match caught(|| s2.relative_to(&r2)) {
+            Ok(v) if format!("{:?}", v) == format!("{:?}", res) => {}
+            Ok(v) => l.violation(format!("{}|self={},ref={}|not-scale-invariant", entry, ks, kr), "relative_to changes when self and reference are scaled by the same power of two".to_string(), case(), detail(format!("{:?}", res), json!({"exponent": e, "scaled_result": format!("{:?}", v)}))),
+            Err(p) => l.violation(format!("{}|self={},ref={}|panic-on-scaled-operands@{}", entry, ks, kr, p.location), format!("relative_to panics for a strictly positive reference once both operands are scaled by 2^{}: {}", e, p.message), case(), detail(format!("{:?}", res), json!({"exponent": e}))),
+        }
     }
 }
 
@@ -642,11 +682,22 @@ fn relative_sweep(run: &Arc<Run>) {
             let b = a + r.uniform(0.0, 10.0);
             (r.below(2) as u8, a, b)
         };
-        let s = g(&mut r);
+        let mut s = g(&mut r);
         let mut rf = g(&mut r);
         if rf.1 == 0.0 {
             rf.1 = 0.5;
             rf.2 += 0.5;
+        }
+        if i % 4 == 1 {
+            // a change of a few ulps: self sits just above / below the reference (tiny relative changes
+            // are where (x-r)/r and a rearranged formula part ways)
+            let up = |v: f64, k: u64| f64::from_bits(v.to_bits() + k);
+            if i % 8 == 1 {
+                rf.2 = rf.1;
+            }
+            s.1 = up(rf.1, r.below(4));
+            s.2 = up(rf.2.max(s.1), r.below(6));
+            l.count("relative_to: self within a few ulps of the reference");
         }
         let case = || json!({"ty": "f64", "what": "relative", "a": [s.0, s.1, s.2], "b": [rf.0, rf.1, rf.2]});
         judge_relative::<f64>(mk::<f64>(s.0, s.1, s.2), mk::<f64>(rf.0, rf.1, rf.2), &case, l, 8.0);
@@ -710,7 +761,7 @@ pub fn run(run: &Arc<Run>) {
     unsigned_sweep(run);
     run.set_rule(
         "exhaustive over the box: bounds -4..4 (i32, i64: step 1; f64, f32: step 0.5, all operations exact; u32: bounds 0..8 and only operations whose exact result is non-negative), all three kinds, scalars -3..3 (non-zero powers of two for float division, non-zero integers for integer division), \
-         all kind pairs for interval+interval / interval-interval (the two documented panics must be panics), relative_to over non-negative self x strictly positive reference (dyadic grid + seeded random). \
+         all kind pairs for interval+interval / interval-interval (the two documented panics must be panics), relative_to over non-negative self x strictly positive reference (dyadic grid + seeded random incl. self within a few ulps of the reference; bounds judged to a relative 8 ulps; each case repeated with both operands scaled by 2^-900..2^900, bit-identical result required). \
          Each result is judged by brute force over the lattice -12..12 (members of A (and B) must map into the result; each finite result bound must be attained; unbounded exactly where the image is) and against the end-point image model. \
          distinct = distinct (type, operator, operands) fingerprints; all are non-trivial.",
     );
@@ -744,6 +795,8 @@ pub fn run(run: &Arc<Run>) {
     req.push("unsigned subtraction judged".into());
     req.push("documented-panic(incompatible one-sided kinds)".into());
     req.push("documented-panic(same-direction reference)".into());
+    req.push("relative_to scale invariance judged".into());
+    req.push("relative_to: self within a few ulps of the reference".into());
     let r: Vec<&str> = req.iter().map(|s| s.as_str()).collect();
     run.require(&r);
 }
